@@ -28,6 +28,9 @@ def run(rep, prog, tier):
     harmonic(rep, prog)
 
 
+FREQ_SPEC_GUARDED = ("sorted(set([f for c in circuit.components for f in "
+                     "(([c.value['w']*n for n in arange(floor(w_max/c.value['w']) + 1)] if (c.type == 'periodic_voltage_source' or c.type == 'periodic_current_source') else [c.value['w']]) "
+                     "if 'w' in c.value else [])]))")
 FREQ_SPEC = ("sorted(set([f for c in circuit.components for f in "
              "([c.value['w']*n for n in arange(floor(w_max/c.value['w']) + 1)] if (c.type == 'periodic_voltage_source' or c.type == 'periodic_current_source') else [c.value['w']])]))")
 
@@ -51,6 +54,11 @@ def freqs(rep, prog):
     # the multiset of contributed frequencies: every component, [w] or all harmonics 0..floor(w_max/w)
     as_list = lambda c_: Comp(c_.elt, c_.gens, 'list') if isinstance(c_, Comp) else c_
     ok = term_equal(as_list(core_t), as_list(core_s))
+    guarded = False
+    if not ok:
+        # the same list with components that carry no frequency excluded by an explicit membership test instead of a caught KeyError
+        sp2 = spec(ev, FREQ_SPEC_GUARDED, {'circuit': A('circuit'), 'w_max': A('w_max'), 'arange': Ref('npfun', None, None, 'arange')}, f.mod)
+        ok = guarded = term_equal(as_list(core_t), as_list(strip(sp2, ('sorted', 'list'))))
     rep.ob('R09.freqs', 'per-component', True if ok else (None if has_opaque(core_t) or not isinstance(core_t, Comp) else False),
            f'contributions = {core_t!r:.300}', site, lhs=core_t, rhs=core_s)
     # components without a frequency: the KeyError handler yields nothing (in whichever function reads value['w'])
@@ -63,6 +71,7 @@ def freqs(rep, prog):
                     if h.type is not None and 'KeyError' in ast.unparse(h.type):
                         last = h.body[-1]
                         okh = (isinstance(last, ast.Return) and ast.unparse(last.value) in ('[]', 'list()', '()')) or isinstance(last, ast.Continue)
+    if okh is None and guarded: okh = True
     rep.ob('R09.freqs', 'no-frequency', okh, 'components without a frequency contribute no entry', site)
 
 
